@@ -1287,3 +1287,71 @@ def replay(rep):  # noqa: F811
         print('replay: %s' % ('violation reproduced on the real code' if bad else 'not reproduced'))
         return 1 if bad else 0
     return _rp14(rep)
+
+
+# ---- order (C12): the same uniquely named definitions in several orders (bounded stand-in / replay) ----
+_ORDER_DEFS = ['zoa 3 zob', 'zob 2 zoc zokilo', 'zoc 5 m', 'zokilo- 1000', 'zok-- zokilo', 'zolen ? zoarea / m', 'zoarea ? m^2 zobase^-4', 'zosub {\n zod const zoe 2 zoa\n}', '?? doc of zodoc\nzodoc 7 zoa',
+               'zobase !', 'zousesbase 4 zobase zoa', 'zolong ! zolongname', 'zoul 2 zolongname']
+_ORDER_QUERIES = ['zoa', 'zob', '3 zoa -> m', 'zokzoc -> m', 'zodoc', 'zod of zosub', 'zousesbase', 'zoul', 'units for zoarea', '2 zokilozoc']
+
+
+def _order_witness():
+    if build_core() != 0:
+        return None
+    import itertools
+    n = len(_ORDER_DEFS)
+    orders = [list(range(n)), list(reversed(range(n))), list(range(n // 2, n)) + list(range(n // 2)), [i for i in range(n) if i % 2] + [i for i in range(n) if not i % 2],
+              sorted(range(n), key=lambda i: (i * 7) % n)]
+    base = None
+    for o in orders:
+        text = '\n'.join(_ORDER_DEFS[i] for i in o) + '\n'
+        rc, so, se, dt = run([QUERY_BIN, '--defs', text] + _ORDER_QUERIES, timeout=60)
+        lines = [l for l in so.splitlines()]
+        key = '\n'.join(l for l in lines if not l.startswith('Unknown'))
+        if rc not in (0, 1) or 'PANIC' in so:
+            return {'replayer': 'order', 'input': {'definitions': text, 'expected': 'loads'}, 'output': one_line(so + se, 300), 'why': 'loading order %s aborts' % o, 'cmd': QUERY_BIN}
+        if base is None:
+            base = (key, text)
+            if 'load_definitions: Ok' not in so:
+                return {'replayer': 'order', 'input': {'definitions': text, 'expected': 'loads without errors'}, 'output': one_line(so, 300), 'why': 'the reference order does not load cleanly: %s' % one_line(so, 200), 'cmd': QUERY_BIN}
+        elif key != base[0]:
+            a, b = base[0].splitlines(), key.splitlines()
+            diff = [(x, y) for x, y in zip(a, b) if x != y][:2]
+            return {'replayer': 'order', 'input': {'definitions': text, 'expected': 'the same database as any other order of the same definitions'}, 'output': one_line(key, 300),
+                    'why': 'the order %s gives a different answer: %s' % (o, diff), 'cmd': '%s --defs %r ...' % (QUERY_BIN, text[:120])}
+    return None
+
+
+_sf15 = search_family
+
+
+def search_family(fam, prop):  # noqa: F811
+    if fam == 'order':
+        return _order_witness()
+    return _sf15(fam, prop)
+
+
+_fw16 = find_witness
+
+
+def find_witness(o, rep):  # noqa: F811
+    if rep.get('property') == 'C12':
+        w = _order_witness()
+        if w:
+            return w
+    return _fw16(o, rep)
+
+
+_rp16 = replay
+
+
+def replay(rep):  # noqa: F811
+    w = rep.get('replay') or {}
+    if w.get('replayer') == 'order':
+        if build_core() != 0:
+            return 0
+        w2 = _order_witness()
+        print('definitions: %r' % rep['input']['definitions'][:300])
+        print('replay: %s' % ('violation reproduced on the real code: %s' % w2['why'] if w2 else 'not reproduced'))
+        return 1 if w2 else 0
+    return _rp16(rep)
